@@ -74,6 +74,11 @@ pub trait Shapes2 {
     fn npo_ref_out(&self) -> Option<&u64>;
     fn npo_fn(&self, f: Option<extern "C" fn(u32) -> u32>, x: u32) -> u32;
     fn res_unit(&self, r: Result<(), u8>) -> Result<(), u8>;
+    /// a method-level integer-result marker, followed by an UNMARKED method with the same error type:
+    /// the unmarked one keeps the full error value
+    #[int_result]
+    fn io_marked(&self, v: u32) -> Result<u32, std::io::Error>;
+    fn io_plain_after(&self, v: u32) -> Result<u32, std::io::Error>;
     /// calls the callback three times WHATEVER it answers (a `false` is only a request)
     fn cb_all(&self, cb: OpaqueCallback<u32>);
 }
@@ -107,6 +112,8 @@ impl Shapes2 for Imp {
     fn npo_mut(&self, v: Option<&mut u64>) { let r = self.r(24); r.variant = v.is_some() as u8; if let Some(x) = v { r.ptr = x as *mut u64 as usize; r.payload = *x; *x = r.wval; } }
     fn npo_ref_out(&self) -> Option<&u64> { let r = self.r(24); if r.out_variant == 1 { Some(&self.cell) } else { None } }
     fn npo_fn(&self, f: Option<extern "C" fn(u32) -> u32>, x: u32) -> u32 { let r = self.r(25); r.variant = f.is_some() as u8; r.ptr = f.map(|p| p as usize).unwrap_or(0); match f { Some(g) => g(x), None => x } }
+    fn io_marked(&self, v: u32) -> Result<u32, std::io::Error> { let r = self.r(28); r.payload = v as u64; if r.out_variant == 0 { Ok(r.out_payload as u32) } else { Err(std::io::Error::from_raw_os_error(r.wval as i32 | 1)) } }
+    fn io_plain_after(&self, v: u32) -> Result<u32, std::io::Error> { let r = self.r(29); r.payload = v as u64; if r.out_variant == 0 { Ok(r.out_payload as u32) } else { Err(std::io::ErrorKind::NotFound.into()) } }
     fn cb_all(&self, mut cb: OpaqueCallback<u32>) { let r = self.r(27); let (w, o) = (r.wval as u32, r.out_payload as u32); let a = cb.call(w); let b = cb.call(o); let c = cb.call(w ^ o); r.variant = a as u8 | (b as u8) << 1 | (c as u8) << 2; }
     fn res_unit(&self, x: Result<(), u8>) -> Result<(), u8> { let r = self.r(26); match x { Ok(()) => { r.variant = 0 } Err(e) => { r.variant = 1; r.payload = e as u64 } } if r.out_variant == 0 { Ok(()) } else { Err(r.out_payload as u8) } }
 }
@@ -114,6 +121,15 @@ impl Shapes2 for Imp {
 /// builtin external trait with a string argument and an integer-coded result
 impl core::fmt::Write for Imp {
     fn write_str(&mut self, s: &str) -> core::fmt::Result { let r = self.r(40); r.ptr = s.as_ptr() as usize; r.len = s.len(); if r.idx < s.len() { r.elem = s.as_bytes()[r.idx] as u64; } if r.out_variant == 0 { Ok(()) } else { Err(core::fmt::Error) } }
+}
+/// builtin external formatting traits: the implementor writes three pieces — short, long (70
+/// bytes), short — or fails after the second
+pub const LONG_PIECE: &str = "0123456789abcdefghijklmnopqrstuvwxyzABCDEFGHIJKLMNOPQRSTUVWXYZ-+*/=<>!";
+impl core::fmt::Display for Imp {
+    fn fmt(&self, f: &mut core::fmt::Formatter) -> core::fmt::Result { let r = self.r(43); f.write_str("a\u{df}")?; f.write_str(LONG_PIECE)?; if r.out_variant != 0 { return Err(core::fmt::Error); } f.write_str("yz") }
+}
+impl core::fmt::Debug for Imp {
+    fn fmt(&self, f: &mut core::fmt::Formatter) -> core::fmt::Result { let _ = self.r(44); f.write_str("D:")?; f.write_str(LONG_PIECE)?; f.write_str("!") }
 }
 /// builtin external trait handing out a mutable reference
 impl AsMut<u64> for Imp { fn as_mut(&mut self) -> &mut u64 { let _ = self.r(41); &mut self.cell } }
